@@ -104,15 +104,17 @@ QPos(a) == a[1] > 0
 RECURSIVE QSumF(_, _, _)                            \* sum_{i=lo..hi} F[i]
 QSumF(F, lo, hi) == IF lo > hi THEN QZero ELSE QAdd(F[lo], QSumF(F, lo + 1, hi))
 
-(* formal logarithms: sparse maps prime -> rational                         *)
-LEmpty == [p \in {} |-> QZero]
+(* formal logarithms: sparse maps prime -> rational.  TLCEval forces a       *)
+(* function constructor to be evaluated once (TLC would otherwise evaluate   *)
+(* its body again at every application, which compounds in chained sums)     *)
+LEmpty == TLCEval([p \in {} |-> QZero])
 LGet(l, p) == IF p \in DOMAIN l THEN l[p] ELSE QZero
-LClean(f) == [p \in {x \in DOMAIN f : f[x][1] # 0} |-> f[p]]
+LClean(f) == LET ff == TLCEval(f) IN TLCEval([p \in {x \in DOMAIN ff : ff[x][1] # 0} |-> ff[p]])
 LAdd(a, b) == LClean([p \in (DOMAIN a) \cup (DOMAIN b) |-> QAdd(LGet(a, p), LGet(b, p))])
 LScale(r, a) == LClean([p \in DOMAIN a |-> QMul(r, a[p])])
 RECURSIVE Fac(_, _)                                 \* prime factorisation by trial division from d
 Fac(n, d) == IF n = 1 THEN LEmpty
-             ELSE IF d * d > n THEN [p \in {n} |-> QOne]
+             ELSE IF d * d > n THEN TLCEval([p \in {n} |-> QOne])
              ELSE IF n % d = 0 THEN LAdd([p \in {d} |-> QOne], Fac(n \div d, d))
              ELSE Fac(n, d + 1)
 LnInt(n) == Fac(n, 2)                               \* n >= 1
@@ -151,7 +153,7 @@ BgM(k, j) == QInt(BM[k][j])
 --------------------------------------------------------------------------
 (* DEFINITION                                                               *)
 \* weights of data followed by background: "background events enter with weight -w_bkg"
-RawW(g) == [i \in 1..NAll(g) |-> IF i <= ND(g) THEN g.dw[i] ELSE QNeg(g.wb)]
+RawW(g) == TLCEval([i \in 1..NAll(g) |-> IF i <= ND(g) THEN g.dw[i] ELSE QNeg(g.wb)])
 SumW(g) == QSumF(RawW(g), 1, NAll(g))
 SumW2(g) == QSumF([i \in 1..NAll(g) |-> QMul(RawW(g)[i], RawW(g)[i])], 1, NAll(g))
 Alpha(g) == QDiv(SumW(g), SumW2(g))
@@ -285,11 +287,11 @@ Blend ==
     /\ LET g == Grp
            modelwbkg == IF g.bgkey THEN QInt(1) ELSE g.wb      \* Model.w_bkg; must not enter when the bg carries weights
            bgw == IF g.bgkey THEN QNeg(g.wb) ELSE QNeg(modelwbkg)
-           raw == [i \in 1..NAll(g) |-> IF i <= ND(g) THEN g.dw[i] ELSE bgw]
+           raw == TLCEval([i \in 1..NAll(g) |-> IF i <= ND(g) THEN g.dw[i] ELSE bgw])
            s1 == QSumF(raw, 1, NAll(g))
            s2 == QSumF([i \in 1..NAll(g) |-> QMul(raw[i], raw[i])], 1, NAll(g))
            a == QDiv(s1, s2)
-       IN wts' = [i \in 1..NAll(g) |-> QMul(a, raw[i])]
+       IN wts' = TLCEval([i \in 1..NAll(g) |-> QMul(a, raw[i])])
     /\ pc' = "blended"
     /\ UNCHANGED <<scn, gi, mcw, bk, acc, sw, im, ib, tot, trail>>
 
@@ -298,8 +300,8 @@ PreBatch ==
     /\ pc = "blended"
     /\ LET g == Grp IN
        mcw' = IF g.mckey
-              THEN LET sv == QSumF(g.mv, 1, NM(g)) IN [j \in 1..NM(g) |-> QDiv(g.mv[j], sv)]
-              ELSE [j \in 1..NM(g) |-> QDiv(QOne, QInt(NM(g)))]
+              THEN LET sv == QSumF(g.mv, 1, NM(g)) IN TLCEval([j \in 1..NM(g) |-> QDiv(g.mv[j], sv)])
+              ELSE TLCEval([j \in 1..NM(g) |-> QDiv(QOne, QInt(NM(g)))])
     /\ pc' = IF scn.path = "value" THEN "value" ELSE IF McFirst THEN "mc" ELSE "data"
     /\ bk' = 1
     /\ UNCHANGED <<scn, gi, wts, acc, sw, im, ib, tot, trail>>
@@ -383,7 +385,7 @@ ReBlend ==
        THEN wts' = wts
        ELSE LET s1 == QSumF(wts, 1, N)
                 s2 == QSumF([i \in 1..N |-> QMul(wts[i], wts[i])], 1, N)
-            IN wts' = [i \in 1..N |-> QMul(QDiv(s1, s2), wts[i])]
+            IN wts' = TLCEval([i \in 1..N |-> QMul(QDiv(s1, s2), wts[i])])
     /\ pc' = "value2"
     /\ UNCHANGED <<scn, gi, mcw, bk, acc, sw, im, ib, tot, trail>>
 
